@@ -83,7 +83,7 @@ theorem C02_option (ctx : ClsCtx) (doc : Option DocC) (call : Call) (hn : call.l
 /-- `add_test(…)`: one CTest entry, documented or not -/
 theorem C02_add_test (ctx : ClsCtx) (doc : Option DocC) (call : Call) (hn : call.lname = lit "add_test") :
     (Item.cmd doc call).spec {} ctx =
-      { top := [.ctest (nameOf call.singles).1 (docTextOf doc) (ctestParams call.singles)] } :=
+      { top := [.ctest (nameOf call.allTexts).1 (docTextOf doc) (ctestParams call.allTexts)] } :=
   spec_cmd_add_test {} ctx doc call hn (Or.inr rfl)
 
 /-- a documented `set(name v…)`: one variable entry -/
